@@ -115,9 +115,15 @@ Retry / Catch decisions arbitrary); `Quirks.none` is the repaired protocol, `Qui
 section FanProto
 open Asl.FanProto
 
-/-- (ii) once an attempt has failed its join never hands over a result, whatever arrives afterwards — results of its own
-branches, of attempts nested in them, late events, replies, deferred handlers, in any order — and whatever the switches -/
-theorem terminated_attempt_never_succeeds (q : Quirks) (is1 is2 : List Inp) (a : Nat) (e : Err) (vs : List Nat)
+/-- (ii) in the output sequence of ANY run, under any switches, no hand-over of attempt `a` comes after a failure of `a`:
+once an attempt has failed its join never hands over a result, whatever arrives afterwards — results of its own branches,
+of attempts nested in them, late events, replies, deferred handlers, in any order -/
+theorem terminated_attempt_never_succeeds (q : Quirks) (is : List Inp) (a : Nat) (e : Err) (vs : List Nat)
+    (pre post : List Out) (h : (run q init is).2 = pre ++ Out.failAttempt a e :: post) : Out.succeed a vs ∉ post :=
+  run_no_succeed_after_fail q init is wf_init a e vs pre post h
+
+/-- … in particular not in answer to anything that arrives later -/
+theorem terminated_attempt_never_succeeds_later (q : Quirks) (is1 is2 : List Inp) (a : Nat) (e : Err) (vs : List Nat)
     (h : Out.failAttempt a e ∈ (run q init is1).2) : Out.succeed a vs ∉ (run q (run q init is1).1 is2).2 :=
   run_dead_no_succeed q _ is2 a vs (run_fail_dead q init is1 a wf_init (Or.inl ⟨e, h⟩))
 
@@ -205,6 +211,8 @@ theorem one_level_lookup_breaks_inertness :
 
 /-! non-vacuity: the hypotheses of the theorems above are met by these runs, and the repaired protocol does what they say -/
 example : Out.failAttempt 0 (.plain 1) ∈ (run Quirks.none init nestedRetried).2 := by decide
+example : (run Quirks.none init nestedRetried).2 =
+    [.launched 0, .progress 0 1, .launched 1, .progress 1 0, .progress 0 0] ++ Out.failAttempt 0 (.plain 1) :: [.retry 0 1] := by decide
 example : (run Quirks.none (run Quirks.none init nestedRetried).1 nestedFailsLater).2 =
     [.progress 1 0, .failAttempt 1 (.plain 2)] := by decide
 example : Out.endExecution false ∈ (run Quirks.none init deepThenOuterFails).2 := by decide
